@@ -5,6 +5,9 @@ package vlib
 
 import (
 	"bufio"
+	"crypto/sha256"
+	"encoding/binary"
+	"hash"
 	"encoding/json"
 	"fmt"
 	"os"
@@ -60,6 +63,9 @@ type Run struct {
 	vorder []string
 	known  []knownEntry
 	groups map[string]func()
+
+	obsOut string
+	obs    map[string]*obsGroup
 
 	replayGroup string
 	replayCase  string
@@ -121,6 +127,8 @@ func Start(id, level string) *Run {
 		}
 	}
 	r.deadline = r.start.Add(budget)
+	r.obsOut = os.Getenv("VERIF_OBS_OUT")
+	r.obs = map[string]*obsGroup{}
 	r.loadKnown()
 	return r
 }
@@ -136,6 +144,68 @@ func (r *Run) RecheckDone() bool {
 	r.mu.Lock()
 	defer r.mu.Unlock()
 	return r.recheck && r.reFound
+}
+
+// ---- observation digests (engine K): when VERIF_OBS_OUT is set, every driver output
+// passed to Observe is folded into a per-group SHA-256; the C09 orchestrator runs the same
+// driver under each CPU configuration and compares the digests group by group. Within a
+// group, Observe must be called in a deterministic order (group bodies are sequential).
+type obsGroup struct {
+	h hash.Hash
+	n int64
+	v *os.File
+}
+
+func (r *Run) ObsMode() bool { return r.obsOut != "" }
+
+func (r *Run) Observe(group string, data []byte) {
+	if r.obsOut == "" {
+		return
+	}
+	r.mu.Lock()
+	if r.recheck {
+		r.mu.Unlock()
+		return
+	}
+	g, ok := r.obs[group]
+	if !ok {
+		g = &obsGroup{h: sha256.New()}
+		for _, v := range strings.Split(os.Getenv("VERIF_OBS_VERBOSE"), ",") {
+			if v != "" && v == group {
+				g.v, _ = os.Create(r.obsOut + ".verbose." + sanitize(group))
+			}
+		}
+		r.obs[group] = g
+	}
+	r.mu.Unlock()
+	var l [4]byte
+	binary.BigEndian.PutUint32(l[:], uint32(len(data)))
+	g.h.Write(l[:])
+	g.h.Write(data)
+	g.n++
+	if g.v != nil {
+		fmt.Fprintf(g.v, "%d %x\n", g.n, data)
+	}
+}
+
+// ObserveStr is Observe for short textual outcomes ("panic", "err", ...).
+func (r *Run) ObserveStr(group, s string) { r.Observe(group, []byte(s)) }
+
+func (r *Run) writeObs() {
+	if r.obsOut == "" {
+		return
+	}
+	out := map[string]any{}
+	for k, g := range r.obs {
+		out[k] = map[string]any{"n": g.n, "sha256": fmt.Sprintf("%x", g.h.Sum(nil))}
+		if g.v != nil {
+			g.v.Close()
+		}
+	}
+	b, _ := json.MarshalIndent(out, "", " ")
+	if err := os.WriteFile(r.obsOut, b, 0o644); err != nil {
+		r.Harness("cannot write observations: " + err.Error())
+	}
 }
 
 // Expired reports whether the internal budget is used up; callers stop exploring and the
@@ -385,6 +455,9 @@ func (r *Run) Harness(msg string) {
 	os.Exit(2)
 }
 
+// Sanitize maps a key to a file-name-safe string.
+func Sanitize(s string) string { return sanitize(s) }
+
 func sanitize(s string) string {
 	var b strings.Builder
 	for _, c := range s {
@@ -439,9 +512,10 @@ func (r *Run) Finish() {
 		os.WriteFile(path, b, 0o644)
 		lines = append(lines, fmt.Sprintf("VIOLATION property=%s replay=%s key=%s cases=%d :: %s", r.ID, path, key, v.Count, oneLine(v.Desc)))
 	}
-	if r.replayGroup == "" {
+	if r.replayGroup == "" && r.obsOut == "" {
 		r.writeEvidence(wall, nviol)
 	}
+	r.writeObs()
 	fmt.Printf("check=%s tier=%s seed=%d evaluations=%d states=%d transitions=%d distinct_tags=%d exhaustive=%v caps=%v wall=%.1fs\n",
 		r.ID, r.Tier, r.seed, r.evals, r.states, r.transitions, len(r.tags), r.exhaustive, r.capsHit, wall)
 	for _, l := range lines {
